@@ -230,6 +230,7 @@ func (c *Client) receiveLoop() {
 				continue
 			}
 
+			vhook("rl.before-lock")
 			c.pendingMu.Lock()
 			p, ok := c.pending[msg.TransactionID]
 			if ok {
@@ -399,6 +400,7 @@ func (c *Client) Request(ctx context.Context, advertise *dhcpv6.Message, modifie
 //
 // Responses will be matched by transaction ID.
 func (c *Client) send(dest net.Addr, msg *dhcpv6.Message) (<-chan *dhcpv6.Message, func(), error) {
+	vhook("send.before-lock")
 	c.pendingMu.Lock()
 	if _, ok := c.pending[msg.TransactionID]; ok {
 		c.pendingMu.Unlock()
@@ -419,6 +421,7 @@ func (c *Client) send(dest net.Addr, msg *dhcpv6.Message) (<-chan *dhcpv6.Messag
 		// lock, and then we can take the lock and remove the XID from
 		// the pending transaction map.
 		close(done)
+		vhook("cancel.done-closed")
 
 		c.pendingMu.Lock()
 		// receiveLoop may already have reaped our entry, and another
